@@ -284,6 +284,13 @@ def chain_ctor(ctx):
             pg = it.explore(lambda: cls.lookup("__getitem__")(flat, slice(1, None)))
             oks = len(pg) == 1 and pg[0].outcome == "return" and isinstance(pg[0].value, Obj) and tuple(pg[0].value.bijections) == (b, c)
             ctx.oblige("C08/Chain.__getitem__/post/slice_is_the_chain_of_the_slice", bool(oks), [], props, kind="struct", fn=q + ".__getitem__")
+            # sequence protocol of a chain: len and iteration enumerate exactly the children, in order (what users loop over / count layers with)
+            pl = it.explore(lambda: cls.lookup("__len__")(flat))
+            okl = len(pl) == 1 and pl[0].outcome == "return" and isinstance(pl[0].value, int) and not isinstance(pl[0].value, bool) and pl[0].value == 3
+            ctx.oblige("C08/Chain.__len__/post/number_of_children", bool(okl), [], props, kind="struct", fn=q + ".__len__")
+            pi = it.explore(lambda: list(cls.lookup("__iter__")(flat)))
+            oki = len(pi) == 1 and pi[0].outcome == "return" and len(pi[0].value) == 3 and all(x is y for x, y in zip(pi[0].value, (a, b, c)))
+            ctx.oblige("C08/Chain.__iter__/post/yields_the_children_in_order", bool(oki), [], props, kind="struct", fn=q + ".__iter__")
 
 
 @family("shapes/Partial.__check_init__", ["C13", "C08"])
@@ -547,3 +554,68 @@ def vmap_infer_axis_size(ctx):
     paths = it.explore(lambda: fn(tree, None))
     ctx.oblige("C13/_infer_axis_size_from_params[none]/post/raises_when_nothing_is_mapped", len(paths) >= 1 and all(p.outcome == "raise" and p.value.exc == "ValueError" for p in paths), [], props, kind="struct",
                fn=f"{q}._infer_axis_size_from_params", replay=rp)
+
+
+@family("shapes/Vmap._check_no_unwrappables", ["C12", "C13", "C08"])
+def vmap_check_no_unwrappables(ctx):
+    """in_axes is matched against the UNWRAPPED child (Vmap.__init__ infers the axis size from wrappers.unwrap(bijection)), so an
+    in_axes tree that itself contains a wrapper node cannot be a prefix of it: the real `_check_no_unwrappables` raises ValueError iff
+    some node of the in_axes pytree (root, field of a module, element of a container, nested below another wrapper's siblings) is an
+    AbstractUnwrappable, and returns None otherwise; Vmap.__init__ calls it before anything is inferred"""
+    it = ctx.new_interp()
+    props = ["C12", "C13", "C08"]
+    q = "flowjax.bijections.jax_transforms"
+    fq = f"{q}._check_no_unwrappables"
+    fn = it.repo_function(fq)
+    loc_cls = it.repo_class("flowjax.bijections.affine.Loc")
+    wrappers_ = {n: it.repo_class(f"flowjax.wrappers.{n}") for n in ("NonTrainable", "Lambda", "Where", "WeightNormalization")}
+
+    def wrap(n, payload):
+        c = wrappers_[n]
+        if n == "NonTrainable":
+            return Obj(c, tree=payload)
+        if n == "Lambda":
+            return Obj(c, fn="fn", args=(payload,), kwargs={})
+        if n == "Where":
+            return Obj(c, cond=payload, if_true=payload, if_false=payload)
+        return Obj(c, weight=payload, scale=payload)
+
+    rp = dict(kind="c12", vars={})
+    clean = {
+        "none": None,
+        "int": 0,
+        "module_of_ints": Obj(loc_cls, loc=0, shape=()),
+        "module_with_containers": Obj(loc_cls, loc=(0, [None, 1], {"a": 0}), shape=()),
+    }
+    for tag, tree in clean.items():
+        paths = it.explore(lambda tree=tree: fn(tree))
+        ctx.oblige(f"C12/_check_no_unwrappables[clean:{tag}]/post/accepts_a_tree_without_wrappers", len(paths) >= 1 and all(p.outcome == "return" and p.value is None for p in paths), [], props, kind="struct", fn=fq, replay=rp,
+                   note=f"outcomes: {[(p.outcome, getattr(p.value, 'exc', None)) for p in paths][:4]}")
+    for wn in wrappers_:
+        dirty = {
+            "root": wrap(wn, 0),
+            "module_field": Obj(loc_cls, loc=wrap(wn, 0), shape=()),
+            "inside_tuple_in_module": Obj(loc_cls, loc=(0, wrap(wn, None)), shape=()),
+            "inside_list_and_dict": [0, {"a": (None, wrap(wn, 1))}],
+            "last_of_several_fields": Obj(loc_cls, loc=0, shape=wrap(wn, 0)),
+        }
+        for tag, tree in dirty.items():
+            paths = it.explore(lambda tree=tree: fn(tree))
+            ctx.oblige(f"C13/_check_no_unwrappables[{wn}:{tag}]/post/rejects_a_tree_with_a_wrapper_node", len(paths) >= 1 and all(p.outcome == "raise" and p.value.exc == "ValueError" for p in paths), [], props, kind="struct", fn=fq, replay=rp,
+                       note=f"outcomes: {[(p.outcome, getattr(p.value, 'exc', None)) for p in paths][:4]}")
+    # ---- the constructor consults it on the in_axes it was given, before the axis size is inferred
+    it2 = ctx.new_interp()
+    seen = []
+
+    class W:
+        unwrap = staticmethod(lambda t: seen.append(("unwrap", t)) or t)
+        AbstractUnwrappable = it2.repo_class("flowjax.wrappers.AbstractUnwrappable")
+
+    it2.global_overrides[q] = {"wrappers": W, "_infer_axis_size_from_params": lambda tree, in_axes: seen.append(("infer", in_axes)) or SV(z3.Int("inferred_axis_size"))}
+    cls = it2.repo_class(f"{q}.Vmap")
+    nt2 = it2.repo_class("flowjax.wrappers.NonTrainable")
+    child = AbsBij(z3.Const("child", BIJ), shape=SymTuple(Seq("s")), cond_shape=None)
+    spec = Obj(it2.repo_class("flowjax.bijections.affine.Loc"), loc=Obj(nt2, tree=0), shape=())
+    paths = it2.explore(lambda: cls(child, in_axes=spec))
+    ctx.oblige("C13/Vmap.__init__[in_axes_with_wrapper]/post/rejected_before_inference", len(paths) >= 1 and all(p.outcome == "raise" and p.value.exc == "ValueError" for p in paths) and not any(k == "infer" for k, _ in seen), [], props, kind="struct",
+               fn=f"{q}.Vmap.__init__", replay=rp, note=f"outcomes: {[(p.outcome, getattr(p.value, 'exc', None)) for p in paths][:4]}, calls: {[k for k, _ in seen]}")
